@@ -25,7 +25,7 @@ SPEC = {
              "or the program contains both a store and a load of the variable inside different control constructs."),
     "assumptions": ["vlib/defassign.py definite-assignment analysis (source-level control-flow paths)", "vlib/refeval.py for the run-time echo"],
     "min_evaluations": {"quick": 8000, "thorough": 80000},
-    "must_reach": ["must_reject_rejected", "clean_accepted", "in_sub", "in_main", "runtime_echo_runs", "mutated_random", "diamonds", "nested_loops", "shared_subroutine_rejected", "shared_subroutine_accepted", "many_paths_rejected", "after_router_sequences"],
+    "must_reach": ["must_reject_rejected", "clean_accepted", "in_sub", "in_main", "runtime_echo_runs", "mutated_random", "diamonds", "nested_loops", "shared_subroutine_rejected", "shared_subroutine_accepted", "many_paths_rejected", "after_router_sequences", "same_name_rejected"],
     "shard_timeout": {"quick": 2400, "thorough": 14400},
 }
 
@@ -245,7 +245,37 @@ def shared_subroutine_probe(pt, acc, rng):
     from ..common import PT_ERRORS, reset_globals
     reset_globals()
     I = pt.Int
-    variant = rng.choice(["shared_with_main", "shared_with_main", "frame_then_scratch", "reject_accept_reject", "after_router", "after_router"])
+    variant = rng.choice(["shared_with_main", "shared_with_main", "frame_then_scratch", "reject_accept_reject", "after_router", "after_router", "same_name", "same_name"])
+    if variant == "same_name":
+        # routines made by one factory share their name: the one that reads before writing is reported whichever namesake comes first
+        def make(bad, k):
+            def unit(x):
+                w = pt.ScratchVar(pt.TealType.uint64)
+                return (w.load() + x) if bad else pt.Seq(w.store(x), w.load() + I(k))
+            unit.__name__ = "unit"
+            return pt.Subroutine(pt.TealType.uint64, name=rng.choice([None, "unit", "unit"]))(unit)
+        nsub = rng.choice([2, 3])
+        badpos = rng.randrange(nsub)
+        subs = [make(i == badpos, i) for i in range(nsub)]
+        order = list(range(nsub))
+        rng.shuffle(order)
+        e = I(1)
+        for i in order:
+            e = e + subs[i](I(2))
+        acc.evaluations += 1
+        case = {"probe": "shared_subroutine", "variant": variant, "bad_position": badpos, "call_order": order}
+        try:
+            pt.compileTeal(e, pt.Mode.Application, version=rng.choice([6, 8]), optimize=pt.OptimizeOptions(scratch_slots=False))
+        except PT_ERRORS as e2:
+            cause = e2.__cause__
+            if isinstance(cause, pt.TealCompileError) and "load occurs before store" in str(cause):
+                acc.counters["shared_subroutine_rejected"] += 1
+                acc.counters["same_name_rejected"] += 1
+            else:
+                acc.violation("error_without_offending_load", case, "rejected with %r, cause %r" % (str(e2)[:120], cause))
+            return
+        acc.violation("unassigned_load_accepted", case, "one of %d same-named routines reads its own variable before any store, and the program compiled" % nsub)
+        return
     if variant == "after_router":
         # a Router build rewinds the slot-id counter while the helper's declaration (and its slots) stays cached: variables created
         # afterwards get ids that the helper's slots already carry - they are still different variables
